@@ -62,6 +62,17 @@ func targets() []*tgt {
 			ocb: func() interface{} { return func(t *CT, a int) int { return (*ph)(t, a) | marker } },
 			ph:  ph, phAddr: vmon.FuncCodePtr(*ph), recvIsParam: true})
 	}
+	// function literals held in package variables
+	lits := []func(int) int{Lit0, Lit1}
+	phls := []*func(int) int{&phl0, &phl1}
+	for k := range lits {
+		f, ph, k := lits[k], phls[k], k
+		ts = append(ts, &tgt{name: fmt.Sprintf("literal%d", k), entry: vmon.FuncCodePtr(f), call: f, orig: func(a int) int { return a*17 + 600 + k + 1 },
+			handle: func(b *mocker.Builder) mocker.ExportedMocker { return b.Func(f) },
+			cb:     func(v int) interface{} { return func(a int) int { return v } },
+			ocb:    func() interface{} { return func(a int) int { return (*ph)(a) | marker } },
+			ph:     ph, phAddr: vmon.FuncCodePtr(*ph)})
+	}
 	// unexported functions addressed by name: the same name in this package and in another one (Pkg override)
 	ts = append(ts, &tgt{name: "ExportFunc(ufoo)", entry: vmon.FuncCodePtr(ufoo), call: ufoo, orig: func(a int) int { return a*9 + 400 },
 		handle: func(b *mocker.Builder) mocker.ExportedMocker {
@@ -93,6 +104,7 @@ func neighbours() []neighbour {
 		f := map[int]func(int) int{0: N0, 3: N3, 6: N6, 9: N9}[k]
 		ns = append(ns, neighbour{fmt.Sprintf("N%d", k), f, func(a int) int { return a ^ (0x100 + k) }})
 	}
+	ns = append(ns, neighbour{"LitHelper", LitHelper, func(a int) int { return a*17 + 600 }})
 	for _, k := range []int{0, 2, 4} {
 		k := k
 		m := map[int]func(*CT, int) int{0: (*CT).NM0, 2: (*CT).NM2, 4: (*CT).NM4}[k]
